@@ -18,6 +18,7 @@ import Driver.Cover
 import Driver.Tbr
 import Driver.Oracle
 import Driver.Claim
+import Driver.FeeStake
 open Driver
 
 def dispatch (fam : String) : Option (List String → String → Option Res) :=
@@ -49,6 +50,7 @@ def dispatch (fam : String) : Option (List String → String → Option Res) :=
   | "ledgerhist" => some runLedger
   | "apphash" => some runAppHash
   | "ledgersettle" => some runLedger
+  | "feestake" => some runFeeStake
   | "claim" => some runClaim
   | "oracle" => some runOracle
   | "oracle7" => some runOracle7
@@ -58,6 +60,7 @@ def dispatch (fam : String) : Option (List String → String → Option Res) :=
   | "ratio" => some runRatio
   | "valset" => some runValset
   | "checkpoint" => some runCheckpoint
+  | "vparams" => some runVparams
   | "attest" => some runAttest
   | "qid" => some runQid
   | "wvalue" => some runWvalue
